@@ -138,6 +138,39 @@ theorem C14_arms_module_macros (ext : Ext) (m : Module) (port : Option Nat) (c :
           | _ => c.run ext :=
   ⟨translatedModuleCall_eq m port c hc, moduleQuery_eq_run ext m port c hc⟩
 
+/-- The gathering settings `valve::game_query_mod!` gives a module that names none, and the ones the `game!` macro turns
+into a definition's request settings when it names none, are both `valve::GatheringSettings::default()` as translated =
+the model's `Valve.Gather.default` (what `Module.ofRow` / `requestSettingsOf` use for such rows). -/
+theorem C14_arms_macro_defaults :
+    evalClosed Gen.Arms.valveModDefaultSettings = some (encValveGather Valve.Gather.default)
+    ∧ evalClosed Gen.Arms.gameDefaultSettings = some (encValveGather Valve.Gather.default) :=
+  ⟨valveModDefault_eval, rfl⟩
+
+/-- The hand-written modules savage2 / theship / ffow / jc2m / eco: `query(address, port)` as translated hands address and
+port on unchanged with `None` for the timeout settings (eco: through `query_with_timeout`, which adds `None` for the extra
+settings); decoded, these are the calls the model of each module makes. -/
+theorem C14_arms_hand_modules (ext : Ext) (port : Option Nat) (timeout : Option Settings.Timeout) :
+    (Gen.Arms.handWrappers.map fun w => (w.1, w.2.1, w.2.2.1, evalHandWrapper w.2.2.2 port timeout))
+      = [("savage2", "query", .savage2QueryWithTimeout, some [.addr, encOpt .num port, .none_]),
+         ("theship", "query", .theShipQueryWithTimeout, some [.addr, encOpt .num port, .none_]),
+         ("ffow", "query", .ffowQueryWithTimeout, some [.addr, encOpt .num port, .none_]),
+         ("jc2m", "query", .jc2mQueryWithTimeout, some [.addr, encOpt .num port, .none_]),
+         ("eco", "query", .ecoQueryWithTimeout, some [.addr, encOpt .num port, .none_]),
+         ("eco", "query_with_timeout", .ecoQuery, some [.addr, encOpt .num port, encOpt .timeout timeout, .none_])]
+    ∧ (Call.decode .savage2QueryWithTimeout [.addr, encOpt .num port, .none_] = some (.savage2QueryWithTimeout port none)
+      ∧ Call.decode .theShipQueryWithTimeout [.addr, encOpt .num port, .none_] = some (.theShipQueryWithTimeout port none)
+      ∧ Call.decode .ffowQueryWithTimeout [.addr, encOpt .num port, .none_] = some (.ffowQueryWithTimeout port none)
+      ∧ Call.decode .jc2mQueryWithTimeout [.addr, encOpt .num port, .none_] = some (.jc2mQueryWithTimeout port none)
+      ∧ Call.decode .ecoQuery [.addr, encOpt .num port, encOpt .timeout none, .none_] = some (.ecoQuery port none none))
+    ∧ (moduleQuery ext .savage2 port = (Call.savage2QueryWithTimeout port none).run ext
+      ∧ moduleQuery ext .theShip port = (Call.theShipQueryWithTimeout port none).run ext
+      ∧ moduleQuery ext .ffow port = (Call.ffowQueryWithTimeout port none).run ext
+      ∧ moduleQuery ext .jc2m port = (Call.jc2mQueryWithTimeout port none).run ext
+      ∧ moduleQuery ext .eco port = (Call.ecoQuery port none none).run ext) :=
+  ⟨handWrappers_eval port timeout, handWrappers_decode port, handModules_eq_run ext port⟩
+
+example : evalHandWrapper [(.var .address), (.var .port), .none_] (some 7) none = some [.addr, .some_ (.num 7), .none_] := rfl
+
 example : moduleCall (.valve 27015 (Valve.Engine.new 440) Valve.Gather.default) none
     = some (.valveQuery 27015 (Valve.Engine.new 440) (some Valve.Gather.default) none) := rfl
 example : translatedModuleCall (.quake .three 27960) (some 5) = some (.quakeQuery .three 5 none, false) := by decide
